@@ -7,15 +7,19 @@
    FULL STATEMENT: after any completed refresh |kept'| <= max(retain, |kept|); <= retain for a refresh to a not-yet-kept
    revision unless in-use revisions are kept; revisions after the current one are discarded; neither the new current
    revision nor a revision in use is discarded; retain in 2..20 also as legacy strings, changing between refreshes.
-   PROVED (partial): retain resolution in full; for a refresh to a revision that is NOT kept yet, the exact set of
-   garbage-collected revisions for every state, retain value and in-use answer (everything after current + the oldest
-   index(current)+2-retain revisions that are not in use), hence never the target, never the current one (retain >= 2),
-   never one in use.  MISSING in Coq (monitored on the implementation only): the same characterisation for a refresh to an
-   already-kept revision (the loop that drops the target from the candidates), and the count of kept revisions after the
-   whole change.  In the driver's runs no revision is in use for booting (app snap): the in-use branch is proved, not tied. *)
+   PROVED: retain resolution; the exact set of garbage-collected revisions for every state, retain value and in-use answer,
+   for a refresh to a not-yet-kept revision (C12_gc_new_revision) and to an already kept one, before or after the current
+   revision (C12_gc_kept_before / C12_gc_kept_after: the loop that drops the target from the candidates); never the
+   target, never the current revision (C12_never_discards_target_or_current), never one in use (they are filtered out of
+   the candidates); everything kept after the current revision goes (C12_after_current_discarded); after the whole change
+   a refresh to a kept revision keeps at most as many revisions as before and a refresh to a new revision at most retain,
+   when none of the candidates is in use (C12_retain_bound).  The bound with in-use revisions among the candidates is not
+   stated as a count (the characterisation says exactly which ones stay).  In the driver's runs no revision is in use
+   for booting (app snap): the in-use branch is proved, not tied. *)
 From Coq Require Import List NArith ZArith Bool.
 Import ListNotations.
-Require Import V.models.SnapSeq V.proofs.SnapSeqProofs V.proofs.SnapSeqProofs2.
+Require Import V.models.SnapSeq V.proofs.SnapSeqProofs V.proofs.SnapSeqProofs2 V.proofs.SnapSeqProofs3 V.proofs.SnapSeqProofs4
+               V.proofs.SnapSeqProofs5 V.proofs.SnapSeqProofs6 V.proofs.SnapSeqProofs7.
 Open Scope N_scope.
 
 Theorem C12_retain_resolution : forall (r : rsetting) (on_classic : bool),
@@ -31,18 +35,59 @@ Theorem C12_retain_accepted_values : forall (r : rsetting) (c : bool) (n : Z),
 Proof. exact retain_in_range. Qed.
 Print Assumptions C12_retain_accepted_values.
 
-Theorem C12_gc_new_revision_partial : forall (s : st) (target : N) (retain : Z) (inuse : N -> bool) (ci : nat),
+Theorem C12_gc_new_revision : forall (s : st) (target : N) (retain : Z) (inuse : N -> bool) (ci : nat),
   ~ In target (seq s) -> last_index (cur s) (seq s) = Some ci ->
   gc_revs s target retain inuse
   = skipn (S ci) (seq s) ++ filter (fun r => negb (inuse r)) (firstn (Z.to_nat (Z.of_nat ci + 2 - retain)) (seq s)).
 Proof. exact gc_new_revision. Qed.
-Print Assumptions C12_gc_new_revision_partial.
+Print Assumptions C12_gc_new_revision.
 
-Theorem C12_never_discards_target_or_current_partial : forall (s : st) (target : N) (retain : Z) (inuse : N -> bool) (ci : nat),
-  NoDup (seq s) -> ~ In target (seq s) -> last_index (cur s) (seq s) = Some ci -> (2 <= retain)%Z ->
-  ~ In target (gc_revs s target retain inuse) /\ ~ In (cur s) (gc_revs s target retain inuse).
-Proof. exact gc_new_keeps_current. Qed.
-Print Assumptions C12_never_discards_target_or_current_partial.
+(* refresh to a kept revision t that sits before the current one (index of current = ci): t leaves the candidates *)
+Theorem C12_gc_kept_before : forall (s : st) (t : N) (retain : Z) (inuse : N -> bool) (a b : list N) (ci : nat),
+  NoDup (seq s) -> seq s = a ++ t :: b -> last_index (cur s) (seq s) = Some ci -> (length a < ci)%nat ->
+  gc_revs s t retain inuse
+  = skipn (S ci) (seq s) ++ filter (fun r => negb (inuse r)) (firstn (Z.to_nat (Z.of_nat ci - retain)) (a ++ b)).
+Proof. exact gc_kept_target_before. Qed.
+Print Assumptions C12_gc_kept_before.
+
+(* ... and to one of the revisions after the current one (left over from a revert) *)
+Theorem C12_gc_kept_after : forall (s : st) (t : N) (retain : Z) (inuse : N -> bool) (a b : list N) (ci : nat),
+  NoDup (seq s) -> seq s = a ++ t :: b -> last_index (cur s) (seq s) = Some ci -> (ci < length a)%nat ->
+  gc_revs s t retain inuse
+  = filter (fun r => negb (r =? t)) (skipn (S ci) (seq s))
+    ++ filter (fun r => negb (inuse r)) (firstn (Z.to_nat (Z.of_nat ci - retain + 1)) (seq s)).
+Proof. exact gc_kept_target_after. Qed.
+Print Assumptions C12_gc_kept_after.
+
+Theorem C12_never_discards_target_or_current : forall (s : st) (o : op) (retain : Z) (inuse : N -> bool),
+  wf s -> okind o = ORefresh -> accepts o s = true -> (2 <= retain)%Z ->
+  ~ In (orev o) (gc_revs s (orev o) retain inuse) /\ ~ In (cur s) (gc_revs s (orev o) retain inuse).
+Proof. intros s o retain inuse W K A R. exact (proj2 (refresh_runs s o retain inuse W K A R)). Qed.
+Print Assumptions C12_never_discards_target_or_current.
+
+Theorem C12_after_current_discarded : forall (s : st) (t : N) (retain : Z) (inuse : N -> bool) (ci : nat) (x : N),
+  NoDup (seq s) -> last_index (cur s) (seq s) = Some ci -> t <> cur s ->
+  In x (skipn (S ci) (seq s)) -> x <> t -> In x (gc_revs s t retain inuse).
+Proof. exact after_current_discarded. Qed.
+Print Assumptions C12_after_current_discarded.
+
+(* the kept revisions after a completed refresh are the linked sequence minus the garbage-collected ones; hence the count *)
+Theorem C12_retain_bound : forall (s : st) (o : op) (retain : Z) (inuse : N -> bool),
+  wf s -> okind o = ORefresh -> accepts o s = true -> (2 <= retain)%Z ->
+  let r := run_change o 0 (tasks_for o s retain inuse) s in
+  cur r = orev o /\ In (orev o) (seq r) /\
+  (In (orev o) (seq s) -> (length (seq r) <= length (seq s))%nat) /\
+  (forall ci, ~ In (orev o) (seq s) -> last_index (cur s) (seq s) = Some ci ->
+     (forall x, In x (firstn (Z.to_nat (Z.of_nat ci + 2 - retain)) (seq s)) -> inuse x = false) ->
+     (Z.of_nat (length (seq r)) <= retain)%Z).
+Proof.
+  intros s o retain inuse W K A R. cbv zeta.
+  destruct (refresh_kept_after s o retain inuse W K A R) as (_ & C & I).
+  refine (conj C (conj I (conj _ _))).
+  - intros H. apply refresh_kept_bound; auto.
+  - intros ci NI LI NU. eapply refresh_new_bound; eauto.
+Qed.
+Print Assumptions C12_retain_bound.
 
 (* non-vacuity: kept [1,2,3,4], current 4, retain 3, revision 2 in use: a refresh to 5 discards revision 1 only *)
 Example C12_example :
